@@ -28,6 +28,12 @@ theorem escape_fold (t : List (Char × Str)) (s : Str) (k v : PVal) :
   | nil => rfl
   | cons kv t ih => simp only [List.map_cons, List.foldl_cons, seqReplace, escStep]; exact ih _ _ _
 
+theorem seqReplace_foldlM (t : List (Char × Str)) (s : Str) :
+    t.foldlM (m := Except Err) (fun b kv => .ok (replaceChar kv.1 kv.2 b)) s = .ok (seqReplace t s) := by
+  induction t generalizing s with
+  | nil => rfl
+  | cons kv t ih => simp only [List.foldlM_cons, bind, Except.bind, seqReplace]; exact ih _
+
 /-! ### embeddings of the model's types into Python values -/
 
 def embErr : Err → PyErr
